@@ -57,7 +57,9 @@ NEGATIVE = [  # (cfg, expected kind, expected name)
     ("PoolRun_neg_suppress.cfg", "invariant", "Outcome"),      # shipped: onErrAwaited gives up on the run ctx
     ("PoolRun_neg_noclose.cfg", "invariant", "GunsClosed"),
     ("PoolRun_neg_panicnil.cfg", "invariant", "Outcome"),
-    ("PoolRun_neg_isctx.cfg", "invariant", "Outcome"),         # IsCtxError accepting any context-kind cause once ctx is done
+    ("PoolRun_neg_isctx.cfg", "invariant", "Outcome"),
+    ("PoolRun_neg_callerctx.cfg", "invariant", "StopAfterReturn"),  # pools run on the caller's ctx: Run's deferred cancel misses them
+    ("PoolRun_neg_callerctx_live.cfg", "temporal", ""),             # ... and a healthy long pool never stops, Wait never returns         # IsCtxError accepting any context-kind cause once ctx is done
 ]
 
 
@@ -198,13 +200,15 @@ def run(tier, v):
     t0 = time.time()
     # ---- 1. design level; TLC also prints the fault-plan catalogue --------------------------------
     main_cfg = "PoolRun_thorough.cfg" if thorough else "PoolRun_quick.cfg"
-    pool = ThreadPoolExecutor(max_workers=4)
+    pool = ThreadPoolExecutor(max_workers=5)
     f_main = pool.submit(vlib.tlc, "PoolRunPlans", main_cfg, None, max(4, ncpu // 2), 3000, heap="16g" if thorough else "6g")
     f_build = pool.submit(vlib.harness_build)
 
-    def side():
+    def side(part):
         res = []
-        for cfg, kind, what in NEGATIVE:
+        # the liveness twins of two safety negative controls only in the thorough tier
+        negs_ = [n for n in NEGATIVE if thorough or not n[0].endswith("_live.cfg")]
+        for cfg, kind, what in negs_[part::2]:
             r = fix_temporal(vlib.tlc("PoolRunMC", cfg, workers=1, timeout=600))
             vlib.log("   (%s)" % cfg)
             vlib.tlc_must_fail(r, cfg)
@@ -215,17 +219,18 @@ def run(tier, v):
 
     def live():
         res = []
-        cfgs = ["PoolRun_live.cfg", "PoolRun_livec.cfg", "PoolRun_prompt.cfg", "PoolRun_exh2q.cfg"] if thorough else \
-            ["PoolRun_liveq.cfg", "PoolRun_promptq.cfg"]
+        cfgs = ["PoolRun_live.cfg", "PoolRun_livec.cfg", "PoolRun_prompt.cfg", "PoolRun_exh2q.cfg", "PoolRun_long.cfg",
+                "PoolRun_livelong.cfg"] if thorough else ["PoolRun_liveq.cfg", "PoolRun_promptq.cfg", "PoolRun_longq.cfg"]
         for cfg in cfgs:
             r = fix_temporal(vlib.tlc("PoolRunMC", cfg, workers=max(2, ncpu // 4), timeout=3000,
-                                      deadlock=cfg.startswith("PoolRun_exh"), heap="12g" if thorough else "4g"))
+                                      deadlock=cfg.startswith(("PoolRun_exh", "PoolRun_long")), heap="12g" if thorough else "4g"))
             vlib.log("   (%s)" % cfg)
             vlib.tlc_must_pass(r, cfg)
             res.append((cfg, r))
         return res
 
-    f_side = pool.submit(side)
+    f_side = pool.submit(side, 0)
+    f_side2 = pool.submit(side, 1)
     f_live = pool.submit(live)
     rmain = fix_temporal(f_main.result())
     vlib.log("   (%s)" % main_cfg)
@@ -234,7 +239,7 @@ def run(tier, v):
     if len(plans) < 100:
         raise vlib.MachineryError("only %d fault plans exported by TLC" % len(plans))
     b = f_build.result()
-    negs = f_side.result()
+    negs = f_side.result() + f_side2.result()
     lives = f_live.result()
     pool.shutdown()
     states = rmain.distinct + sum(r.distinct for _, r in lives)
@@ -243,8 +248,8 @@ def run(tier, v):
     # ---- 2. M1: the real engine under every plan ---------------------------------------------------
     d = vlib.scratch()
     pf = os.path.join(d, "plans.ndjson")
-    # quick tier: every one-pool plan, and every other plan with two pools (which half depends on the seed)
-    drive = plans if thorough else [pl for pl in plans if len(pl["pools"]) == 1 or pl["id"] % 2 == vlib.seed() % 2]
+    # quick tier: every one-pool plan, and every eighth (fault, pool) pair of the two-pool plans, with and without cancel (which half depends on the seed), every long-pool plan
+    drive = plans if thorough else [pl for pl in plans if len(pl["pools"]) == 1 or pl["id"] >= 5000 or ((pl["id"] - 1) // 2 + vlib.seed()) % 8 == 0]
     vlib.write_ndjson(pf, drive)
     out = os.path.join(d, "runs.ndjson")
     args = ["poolrun", "-plans", pf, "-out", out]
